@@ -407,7 +407,9 @@ mod verif_c09 {
     kani::assume(k >= 1);
     let mut c = core_with(ime, run, if0, ie0);
     c.registers.ip = ip as u32;
-    c.registers.sp = 0xdff0;
+    // an ordinary work-RAM stack, or SP = 0 where the first pushed byte lands on IE and can cancel the dispatch:
+    // the five cycles are charged either way
+    c.registers.sp = if kani::any() { 0xdff0 } else { 0x0000 };
     c.registers.cycles = p;
     g::reset(k, 0, ip.wrapping_add(1) as u32);
     unsafe { mon::ENTERED_CACHE = false; mon::ENTERED_INTERP = false; mon::TAG_OK = true; mon::LOOKUPS = 0; mon::EXPECTED_BANK = 1; }
